@@ -25,6 +25,11 @@ MCFiles == {[frames |-> <<F(1, 2), F(2, 1)>>, footer |-> 0],
             [frames |-> <<F(1, 1), F(1, 1), F(1, 2)>>, footer |-> 0],
             [frames |-> <<F(1, 2), F(1, 1)>>, footer |-> 2]}
 
+(* negative test (Lossy = TRUE): one script, unbuffered, no reader            *)
+TinyScripts == {S1}
+TinyCaps == {0}
+TinyFiles == {[frames |-> <<F(1, 1)>>, footer |-> 0]}
+
 (* thorough tier: every script of 2..3 calls emitting 0..3 bytes each whose  *)
 (* terminating call flushes, five capacities; every file of 1..3 frames with *)
 (* header / body sizes 1..2, with and without a footer                        *)
